@@ -387,3 +387,128 @@ From RM Require Import C12.Structure.
 Theorem c12_source_structure_modelled : structure_matches.
 Proof. exact structure_ok. Qed.
 Print Assumptions c12_source_structure_modelled.
+
+(* ==== Round 5: the theorems for the PROGRAM regenerated from the Rust bodies.
+   Gen/C12Program.v (translate/c12_program.py, every run) holds CachedAsyncResult::get, the closure of
+   Symbolizer::get_symbols, the closure of HttpSymbolSupplier::locate_file_internal and the entry points fill_symbol /
+   walk_frame / get_symbol_at_address / HttpSymbolSupplier::locate_file (= what Symbolizer::get_file_path delegates
+   to) as instruction lists; C12/ProgModel.v interprets them on the shared state of C12/Model.v ([prun] = whole polls in
+   any order, spurious and unknown ids included).  The statements below are about [prun src_program]: an edit of those
+   bodies (instruction moved / dropped / doubled, retry, non-waiting probe, early unlock) changes the program they are
+   about.  ONE configuration type covers every mix of the four entry points; a lookup (e, k) addresses slot k (symbols:
+   a module key; files: FileModel.enc (module key, kind)); a configuration that mixes the two maps gives them
+   disjoint key ranges (Symbolizer.symbols and HttpSymbolSupplier.cached_file_paths are different maps). *)
+From RM Require Import C12.ProgModel C12.ProgProofs C12.ProgSource Gen.C12Program C12.FileModel.
+
+(* poll for poll the interpreter on the source's program is C12/Model.v: same phase and remaining lookups per task,
+   same lock / value per slot, same supplier log, same per-task results; with symbol lookups only also the same
+   counters and stats (the file closure has neither) — so every theorem above holds for it *)
+Theorem c12_source_program_refines_model : forall (full : bool) (pc : pconfig) (sched : list task),
+  (full = true -> sym_only pc) -> psim full (prun src_program pc sched) (run (cfg pc) sched).
+Proof. exact src_refines. Qed.
+Print Assumptions c12_source_program_refines_model.
+
+(* at most one supplier call (locate_symbols, resp. the file closure's fetch sequence) per slot, whatever the mix
+   of entry points and the schedule *)
+Theorem c12_source_at_most_once : forall (pc : pconfig) (sched : list task) (k : key),
+  psupplier_calls (prun src_program pc sched) k <= 1.
+Proof. exact src_at_most_once. Qed.
+Print Assumptions c12_source_at_most_once.
+
+(* every requester — through whichever entry point — observes the slot's single scripted answer, failures included *)
+Theorem c12_source_same_outcome : forall (pc : pconfig) (sched : list task) (t : task) (i : nat) (k : key) (o : outcome),
+  ptask_result (prun src_program pc sched) t i = Some (k, o) ->
+  o = outc (pbase pc) k /\ exists e, nth_error (nth t (ptasks pc) []) i = Some (e, k).
+Proof. exact src_same_outcome. Qed.
+Print Assumptions c12_source_same_outcome.
+
+Theorem c12_source_results_complete : forall (pc : pconfig) (sched : list task) (t : task),
+  pall_done pc (prun src_program pc sched) = true ->
+  map fst (results (psh (prun src_program pc sched)) t) = map snd (nth t (ptasks pc) []).
+Proof. exact src_results_complete. Qed.
+Print Assumptions c12_source_results_complete.
+
+Theorem c12_source_exactly_once_at_quiescence : forall (pc : pconfig) (sched : list task) (k : key),
+  pall_done pc (prun src_program pc sched) = true -> In k (concat (tasks (cfg pc))) ->
+  psupplier_calls (prun src_program pc sched) k = 1.
+Proof. exact src_exactly_once. Qed.
+Print Assumptions c12_source_exactly_once_at_quiescence.
+
+(* no request is lost, nothing deadlocks, no task of the program panics (unwrap of an empty slot) or is left with an
+   ill-formed continuation *)
+Theorem c12_source_fair_schedule_finishes : forall (pc : pconfig) (sched : list task) (T : nat),
+  fair (length (ptasks pc)) T sched -> T * work (cfg pc) <= length sched ->
+  pall_done pc (prun src_program pc sched) = true.
+Proof. exact src_fair_finishes. Qed.
+Print Assumptions c12_source_fair_schedule_finishes.
+
+Theorem c12_source_never_stuck : forall (pc : pconfig) (sched : list task) (t : task),
+  snd (fst (ppcs (prun src_program pc sched) t)) <> [IAbort].
+Proof. exact src_never_stuck. Qed.
+Print Assumptions c12_source_never_stuck.
+
+(* the pending counters (symbol lookups: fill_symbol / walk_frame / get_symbol_at_address) *)
+Theorem c12_source_counters_bounded : forall (pc : pconfig) (sched : list task), sym_only pc ->
+  proc (psh (prun src_program pc sched)) <= req (psh (prun src_program pc sched)) /\
+  req (psh (prun src_program pc sched)) <= distinct_keys (cfg pc).
+Proof. exact src_counters_bounded. Qed.
+Print Assumptions c12_source_counters_bounded.
+
+Theorem c12_source_counters : forall (pc : pconfig) (sched : list task), sym_only pc ->
+  pall_done pc (prun src_program pc sched) = true ->
+  req (psh (prun src_program pc sched)) = distinct_keys (cfg pc) /\
+  proc (psh (prun src_program pc sched)) = distinct_keys (cfg pc).
+Proof. exact src_counters. Qed.
+Print Assumptions c12_source_counters.
+
+(* HttpSymbolSupplier::locate_file: file configurations are configurations of the same program *)
+Theorem c12_source_files_at_most_once : forall (fc : fconfig) (sched : list task) (fk : fkey),
+  psupplier_calls (prun src_program (pc_of_fc fc) sched) (enc fk) <= 1.
+Proof. exact src_files_at_most_once. Qed.
+Print Assumptions c12_source_files_at_most_once.
+
+Theorem c12_source_files_same_outcome : forall (fc : fconfig) (sched : list task) (t : task) (i : nat) (k : key) (o : outcome),
+  ptask_result (prun src_program (pc_of_fc fc) sched) t i = Some (k, o) ->
+  o = snd (file_script fc (dec k)) /\ (o = OOk \/ o = ONotFound).
+Proof. exact src_files_same_outcome. Qed.
+Print Assumptions c12_source_files_same_outcome.
+
+(* the slots are reached through these entry points only (regenerated list of callers) *)
+Theorem c12_source_ways_into_the_slots : src_ways = canon_ways.
+Proof. exact src_ways_ok. Qed.
+Print Assumptions c12_source_ways_into_the_slots.
+
+(* the instruction set means something: the two seeded shapes are programs too, and the interpreter refutes the
+   property on them — a retry after ParseError asks the supplier twice (counters still 1); with a non-waiting probe in
+   walk_frame a requester polled while the other's lookup is suspended observes a failure although the supplier's
+   single answer is Ok *)
+Theorem c12_retry_program_refuted :
+  psupplier_calls (prun retry_program one_parse [0]) 0 = 2 /\
+  pall_done one_parse (prun retry_program one_parse [0]) = true /\
+  req (psh (prun retry_program one_parse [0])) = 1.
+Proof. exact retry_refuted. Qed.
+Print Assumptions c12_retry_program_refuted.
+
+Theorem c12_probe_program_refuted :
+  let s := prun probe_program two_on_one [0; 1; 0] in
+  pall_done two_on_one s = true /\ psupplier_calls s 0 = 1 /\
+  ptask_result s 0 0 = Some (0, OOk) /\ ptask_result s 1 0 = Some (0, OMissing) /\ outc (pbase two_on_one) 0 = OOk.
+Proof. exact probe_refuted. Qed.
+Print Assumptions c12_probe_program_refuted.
+
+(* non-vacuity: a mixed workload (all four entry points; symbol slots 0 and 1, file slot 2; a remembered failure)
+   under a schedule with spurious polls and an unknown id: contention mid-run, quiescence at the end *)
+Definition ex_pc : pconfig :=
+  {| ptasks := [[(EFill, 0); (EFile, 2)]; [(EWalk, 0); (EAddr, 1)]; [(EFile, 2); (EFill, 1)]];
+     pbase := {| tasks := []; susp := fun k => S k; outc := fun k => if Nat.eqb k 1 then OParse else OOk;
+                 leaf := fun k => k |} |}.
+Example c12_nonvacuous_source_program :
+  let s := prun src_program ex_pc [0; 1; 1] in
+  let s' := prun src_program ex_pc ([0; 1; 1; 2; 7] ++ concat (repeat [0; 1; 2] 8)) in
+  phase_of (snd (fst (ppcs s 0))) (snd (ppcs s 0)) = Sup 0 /\ phase_of (snd (fst (ppcs s 1))) (snd (ppcs s 1)) = Wait /\
+  lock (psh s) 0 = Some 0 /\ req (psh s) = 1 /\ proc (psh s) = 0 /\
+  pall_done ex_pc s' = true /\
+  results (psh s') 1 = [(0, OOk); (1, OParse)] /\ results (psh s') 2 = [(2, OOk); (1, OParse)] /\
+  calls (psh s') = [0; 2; 1] /\ req (psh s') = 2 /\ proc (psh s') = 2 /\
+  src_program = canon.
+Proof. vm_compute. repeat split. Qed.
